@@ -106,7 +106,9 @@ B2Steps(steps, n, abs, fl) ==
 B2ExprH(e, fl, h) ==
     CASE e.t = "path"  -> B2Steps(e.steps, Len(e.steps), e.abs, fl)
       [] e.t = "union" -> QUnion(B2ExprH(e.l, {}, h), B2ExprH(e.r, {}, h))
-      [] e.t = "num"   -> QConst([k |-> "n", v |-> e.v.n])          \* integer literals only
+      [] e.t = "num"   -> \* integers, and positive fractions n / 2^k (only meaningful as a whole predicate, see DoPred)
+                          IF e.v.k = 0 THEN QConst([k |-> "n", v |-> IF e.v.neg THEN 0 - e.v.n ELSE e.v.n])
+                          ELSE QConst([k |-> "f", v |-> e.v.n, kk |-> e.v.k, neg |-> e.v.neg])
       [] e.t = "lit"   -> QConst([k |-> "s", v |-> e.s])
       [] e.t = "call"  -> IF e.f = "not" THEN QNot(B2ExprH(e.args[1], {}, h))
                           ELSE IF e.f \in {"position", "last"} THEN QFn(e.f, h)
@@ -358,6 +360,9 @@ DoPred(q, st, g, cand, x) ==
     IN CASE pv.v.k = "b" -> [ok |-> pv.v.v, pst |-> pv.st, ops |-> pv.ops]
          [] pv.v.k = "s" -> [ok |-> pv.v.v # "", pst |-> pv.st, ops |-> pv.ops]
          [] pv.v.k = "n" -> [ok |-> pv.v.v = PosOf(q.in, st.in), pst |-> pv.st, ops |-> pv.ops]
+         \* the engine TRUNCATES a numeric predicate before comparing it with the position (recorded finding KF-C03-1):
+         \* [1.5] is [1]; a negative fraction truncates to zero or below and matches nothing
+         [] pv.v.k = "f" -> [ok |-> ~pv.v.neg /\ (pv.v.v \div (2 ^ pv.v.kk)) = PosOf(q.in, st.in), pst |-> pv.st, ops |-> pv.ops]
          [] pv.v.k = "q" -> LET r == Sel2(q.pred, pv.st, g, [x EXCEPT !.c = cand, !.ops = pv.ops])
                             IN [ok |-> r.n # 0, pst |-> r.st, ops |-> r.ops]
          [] OTHER -> [ok |-> FALSE, pst |-> pv.st, ops |-> pv.ops]
